@@ -17,7 +17,7 @@ META = {
         "channel operation, so handlers cannot wait on each other. R4: MCP and CLI reach calculate() with the same "
         "kind of inputs (bundled FX cache, override-aware config). R5: explain_matching derives the tax year with the "
         "same 6-April boundary as TaxPeriod::from_date (comparison-only predicate tabulated over the calendar) and "
-        "find_disposal matches on (date, ticker). Does not decide rmcp's id pairing or liveness at EOF. R5 also: the explaining tool calculates for the tax year derived from the requested date (never the all-years report). R4 also: before the calculation the server refuses only an empty ledger. R4 also: the report is ordered at the producer (holdings by ticker, disposals by date and ticker, tax years ascending; shared with C16-R4) because the server re-packages the report's fields instead of serialising it whole."),
+        "find_disposal matches on (date, ticker). Does not decide rmcp's id pairing or liveness at EOF. R5 also: the explaining tool calculates for the tax year derived from the requested date (never the all-years report). R4 also: before the calculation the server refuses only an empty ledger. R4 also: the report is ordered at the producer (holdings by ticker, disposals by date and ticker, tax years ascending; shared with C16-R4) because the server re-packages the report's fields instead of serialising it whole. R4 also: the server hands the calculation every parsed line, as the CLI does (shared with C17-R12)."),
     "trusted_base": [
         "rmcp 0.11 dispatches each request on its own task and does not catch panics (read in service.rs)",
         "rustc MIR + callee resolution; type facts from rustc's ADT definitions",
